@@ -20,7 +20,9 @@ import (
 	"github.com/wundergraph/graphql-go-tools/v2/pkg/astparser"
 	"github.com/wundergraph/graphql-go-tools/v2/pkg/engine/datasource/graphql_datasource"
 	"github.com/wundergraph/graphql-go-tools/v2/pkg/engine/plan"
+	"github.com/wundergraph/graphql-go-tools/v2/pkg/engine/postprocess"
 	"github.com/wundergraph/graphql-go-tools/v2/pkg/engine/resolve"
+	"github.com/wundergraph/graphql-go-tools/v2/pkg/operationreport"
 )
 
 // Request is one subgraph request the gateway sent, as the RoundTripper saw it.
@@ -109,8 +111,9 @@ type Lab struct {
 	SubSDL   map[string]string
 	SuperSDL string
 
-	ownExec bool
-	id      string
+	planConfig plan.Configuration
+	ownExec    bool
+	id         string
 	cancel  context.CancelFunc
 
 	mu    sync.Mutex // serialises Run
@@ -193,7 +196,10 @@ func NewLab(cfg *Config, u *Universe, exec *ExecServer, opts EngineOptions) (*La
 			return fail(fmt.Errorf("subgraph %s datasource: %w", g.Name, err))
 		}
 		conf.AddDataSource(ds)
+		l.planConfig.DataSources = append(l.planConfig.DataSources, ds)
 	}
+	l.planConfig.Fields = cfg.FieldConfigurations()
+	l.planConfig.DisableResolveFieldPositions = true
 	conf.SetFieldConfigurations(cfg.FieldConfigurations())
 	if opts.MultiFetch {
 		conf.EnableMultiFetch()
@@ -472,3 +478,42 @@ func (l *Lab) Validate(operation string) error {
 
 // Trunc shortens a string for messages.
 func Trunc(s string, n int) string { return trunc(s, n) }
+
+
+// Plan plans the operation with a planner of its own over the same data sources and returns the
+// post-processed fetch tree pretty-printed (diagnostics; Run uses the engine's own planner).
+func (l *Lab) Plan(operation, operationName string) (string, error) {
+	req := &graphql.Request{Query: operation, OperationName: operationName}
+	nres, err := req.Normalize(l.Schema, astnormalization.WithRemoveFragmentDefinitions(),
+		astnormalization.WithRemoveUnusedVariables(), astnormalization.WithInlineFragmentSpreads())
+	if err != nil {
+		return "", err
+	}
+	if !nres.Successful {
+		return "", nres.Errors
+	}
+	if nres, err = req.Normalize(l.Schema, astnormalization.WithExtractVariables()); err != nil {
+		return "", err
+	} else if !nres.Successful {
+		return "", nres.Errors
+	}
+	var report operationreport.Report
+	astnormalization.NewVariablesMapper().NormalizeOperation(req.Document(), l.Schema.Document(), &report)
+	if report.HasErrors() {
+		return "", report
+	}
+	planner, err := plan.NewPlanner(l.planConfig)
+	if err != nil {
+		return "", err
+	}
+	p := planner.Plan(req.Document(), l.Schema.Document(), operationName, &report, plan.IncludeQueryPlanInResponse())
+	if report.HasErrors() {
+		return "", report
+	}
+	postprocess.NewProcessor().Process(p)
+	sp, ok := p.(*plan.SynchronousResponsePlan)
+	if !ok {
+		return "", fmt.Errorf("not a synchronous plan")
+	}
+	return sp.Response.Fetches.QueryPlan().PrettyPrint(), nil
+}
